@@ -18,6 +18,8 @@ import VotelibProofs.Lemmas.ConvertPositional
 import VotelibProofs.Lemmas.ConvertCondorcet
 import VotelibProofs.Lemmas.ConvertMisc
 import VotelibProofs.Lemmas.ConvertScore
+import VotelibProofs.Lemmas.ConvertDeep
+import VotelibProofs.Lemmas.ConvertChain
 namespace VL.C13
 open VL VL.Convert
 
@@ -437,6 +439,36 @@ theorem posImage_eq_sum (sc : Scorer) (nCand : Nat) (b : Ballot) (k : Cand) :
   simp
 
 /-! ### the score lists (these react to `component/rankscore.py` through `Gen/RankScore.lean`) -/
+
+/-- `rankscore.select_padded(sequence, n)` (hand-modelled as `selectPadded`, rankscore.py L16-25) is the
+    `n`-prefix of the sequence followed by zero padding up to length `n` -/
+theorem selectPadded_eq (seq : List Rat) (n : Nat) :
+    selectPadded seq n = seq.take n ++ List.replicate (n - seq.length) 0 := by
+  unfold selectPadded
+  simp only [List.length_take]
+  split
+  · rename_i h
+    have : n - min n seq.length = n - seq.length := by omega
+    rw [this]
+  · rename_i h
+    have : n - seq.length = 0 := by omega
+    rw [this]; simp
+
+theorem selectPadded_prefix (seq : List Rat) (n : Nat) (h : n ≤ seq.length) : selectPadded seq n = seq.take n := by
+  rw [selectPadded_eq, Nat.sub_eq_zero_of_le h]; simp
+
+/-- SequenceBased hands out `select_padded(self.sequence, n_ranked)` -/
+theorem sequence_scores_eq (seq : List Rat) (nCand n : Nat) :
+    (Scorer.sequence seq).scores nCand n = .ok (seq.take n ++ List.replicate (n - seq.length) 0) := by
+  simp only [Scorer.scores, selectPadded_eq]
+
+/-- Borda hands out the `n_ranked`-prefix of the list built by `set_n_candidates` (the generated
+    `borda_scores`), never padding, because it refuses more ranks than candidates -/
+theorem borda_scores_eq (base : Int) (nCand n : Nat) (h : n ≤ nCand) :
+    (Scorer.borda base).scores nCand n = .ok ((Gen.RankScore.borda_scores base nCand).take n) := by
+  simp only [Scorer.scores]
+  rw [if_neg (by omega), selectPadded_prefix]
+  simp [Gen.RankScore.borda_scores]; exact h
 
 /-- Borda: rank `r` (0 = best) of a ballot scores `n_candidates + base - 1 - r` -/
 theorem borda_score_at (base : Int) (nCand n r : Nat) (hn : n ≤ nCand) (hr : r < n) :
@@ -1047,6 +1079,70 @@ theorem chain_two_additive {β κ γ : Type} [DecidableEq β] [DecidableEq κ] [
     toFun (Y (X (mergeDict (p₁ ++ p₂)))) g = toFun (Y (X p₁)) g + toFun (Y (X p₂)) g :=
   hX.comp_additive_merged hY p₁ p₂ g
 
+/-! ### general chains -/
+
+theorem linearD_firstPreference : LinearD rankedToFirstPreference :=
+  firstPreference_sum.linearD firstPreference_is_dict
+theorem linearD_firstN (n : Int) : LinearD (rankedToFirstN n) := (firstN_sum n).linearD (firstN_is_dict n)
+theorem linearD_presenceCounts : LinearD rankedToPresenceCounts := presenceCounts_sum.linearD presenceCounts_is_dict
+theorem linearD_rankedToApproval : LinearD rankedToApproval := rankedToApproval_sum.linearD rankedToApproval_is_dict
+theorem linearD_condorcet (atBottom : Bool) (U : List Cand) : LinearD (condorcetU atBottom U) :=
+  (condorcet_sum atBottom U).linearD (condorcet_is_dict atBottom U)
+theorem linearD_scoreToRanked (uv : Option Rat) (U : List Cand) : LinearD (scoreToRankedU uv U) :=
+  (scoreToRanked_sum uv U).linearD (scoreToRanked_is_dict uv U)
+theorem linearD_scoreToApproval (thr : Rat) : LinearD (scoreToApproval thr) :=
+  (scoreToApproval_sum thr).linearD (scoreToApproval_is_dict thr)
+theorem linearD_subsetted {κ : Type} [DecidableEq κ] (sub : κ → Option κ) : LinearD (subsetted sub) :=
+  (subsetted_sum sub).linearD (subsetted_is_dict sub)
+theorem linearD_approvalUnsplit : LinearD approvalUnsplit :=
+  approvalUnsplit_sum.linearD (fun p => by
+    unfold approvalUnsplit
+    apply nodup_foldl_step
+    · intro acc bw hacc; exact nodup_foldl_addTo_const _ _ hacc
+    · simp [dkeys])
+theorem linearD_invertedSimple {κ : Type} [DecidableEq κ] : LinearD (invertedSimple (κ := κ)) :=
+  invertedSimple_linearD
+
+/-- **general chain additivity** (induction over the chain, `LinChain.linear`): for a chain of any length
+    whose links are linear on dictionaries — every sum-of-images converter over a fixed universe, and
+    InvertedSimpleVotes — and whose intermediate key types may change at every link, the conversion of the
+    dict `A + B` is the sum of the conversions; the chain maps dicts to dicts and only sees the profile as
+    a function ballot -> weight -/
+theorem chain_additive {β γ : KeyType} (c : LinChain β γ) (h : c.AllLinear)
+    (p q : Dict β.T) (hp : (dkeys p).Nodup) (hq : (dkeys q).Nodup) (g : γ.T) :
+    toFun (c.run (mergeDict (p ++ q))) g = toFun (c.run p) g + toFun (c.run q) g :=
+  c.additive h p q hp hq g
+
+theorem chain_linear {β γ : KeyType} (c : LinChain β γ) (h : c.AllLinear) : LinearD c.run := c.linear h
+
+/-- a three-link instance: `Chain([ScoreToRankedVotes(uv), RankedToApprovalVotes(), ApprovalToSimpleVotes()])` -/
+theorem chain_score_ranked_approval_simple_additive (uv : Option Rat) (U : List Cand) (p q : SProfile)
+    (hp : (dkeys p).Nodup) (hq : (dkeys q).Nodup) (k : Cand) :
+    toFun (approvalUnsplit (rankedToApproval (scoreToRankedU uv U (mergeDict (p ++ q))))) k
+      = toFun (approvalUnsplit (rankedToApproval (scoreToRankedU uv U p))) k
+        + toFun (approvalUnsplit (rankedToApproval (scoreToRankedU uv U q))) k :=
+  chain_additive (β := ⟨ScoreBallot⟩) (γ := ⟨Cand⟩)
+    (.cons (κ := ⟨Ballot⟩) (scoreToRankedU uv U) (.cons (κ := ⟨Approval⟩) rankedToApproval
+      (.cons (κ := ⟨Cand⟩) approvalUnsplit .nil)))
+    ⟨linearD_scoreToRanked uv U, linearD_rankedToApproval, linearD_approvalUnsplit, trivial⟩ p q hp hq k
+
+/-- `Chain([ScoreToRankedVotes(uv), RankedToCondorcetVotes(ab)])` over fixed universes -/
+theorem chain_score_ranked_condorcet_additive (uv : Option Rat) (U : List Cand) (ab : Bool) (U' : List Cand)
+    (p q : SProfile) (hp : (dkeys p).Nodup) (hq : (dkeys q).Nodup) (k : Cand × Cand) :
+    toFun (condorcetU ab U' (scoreToRankedU uv U (mergeDict (p ++ q)))) k
+      = toFun (condorcetU ab U' (scoreToRankedU uv U p)) k + toFun (condorcetU ab U' (scoreToRankedU uv U q)) k :=
+  chain_additive (β := ⟨ScoreBallot⟩) (γ := ⟨Cand × Cand⟩)
+    (.cons (κ := ⟨Ballot⟩) (scoreToRankedU uv U) (.cons (κ := ⟨Cand × Cand⟩) (condorcetU ab U') .nil))
+    ⟨linearD_scoreToRanked uv U, linearD_condorcet ab U', trivial⟩ p q hp hq k
+
+/-- `Chain([RankedToPresenceCounts(), InvertedSimpleVotes()])` (a dict-comprehension link) -/
+theorem chain_presence_inverted_additive (p q : RProfile) (hp : (dkeys p).Nodup) (hq : (dkeys q).Nodup) (k : Cand) :
+    toFun (invertedSimple (rankedToPresenceCounts (mergeDict (p ++ q)))) k
+      = toFun (invertedSimple (rankedToPresenceCounts p)) k + toFun (invertedSimple (rankedToPresenceCounts q)) k :=
+  chain_additive (β := ⟨Ballot⟩) (γ := ⟨Cand⟩)
+    (.cons (κ := ⟨Cand⟩) rankedToPresenceCounts (.cons (κ := ⟨Cand⟩) invertedSimple .nil))
+    ⟨linearD_presenceCounts, linearD_invertedSimple, trivial⟩ p q hp hq k
+
 /-- `Chain([ScoreToApprovalVotesThreshold(t), ApprovalToSimpleVotes()])` -/
 theorem chain_score_approval_simple_additive (thr : Rat) (p₁ p₂ : SProfile) (k : Cand) :
     toFun (approvalUnsplit (scoreToApproval thr (mergeDict (p₁ ++ p₂)))) k
@@ -1064,6 +1160,77 @@ theorem subsettedNested_image {δ κ : Type} [DecidableEq δ] [DecidableEq κ] (
   have : dkeys (p.map (fun dv => (dv.1, subsetted sub dv.2))) = dkeys p := by
     unfold dkeys; rw [List.map_map]; rfl
   rw [this]; exact h
+
+/-- additivity at depth 1: for the nested dict `A + B` (district-wise `sum_dicts`) the result of every
+    district is the sum of the two results of that district -/
+theorem subsettedNested_additive_merged {δ κ : Type} [DecidableEq δ] [DecidableEq κ] (sub : κ → Option κ)
+    (p₁ p₂ : List (δ × Dict κ)) (h₁ : (dkeys p₁).Nodup) (h₂ : (dkeys p₂).Nodup) (d : δ) (k : κ) :
+    toFun (distLeaf (subsettedNested sub (mergeNested (p₁ ++ p₂))) d) k
+      = toFun (distLeaf (subsettedNested sub p₁) d) k + toFun (distLeaf (subsettedNested sub p₂) d) k := by
+  rw [subsettedNested_image sub _ (nodup_mergeNested _), subsettedNested_image sub _ h₁,
+    subsettedNested_image sub _ h₂, distLeaf_map _ rfl, distLeaf_map _ rfl, distLeaf_map _ rfl]
+  have hfun : ∀ b, toFun (distLeaf (mergeNested (p₁ ++ p₂)) d) b
+      = toFun (distLeaf p₁ d ++ distLeaf p₂ d) b := by
+    intro b
+    rw [toFun_append, ← nsum_eq_distLeaf _ (nodup_mergeNested _) d (fun dv => toFun dv b) rfl,
+      ← nsum_eq_distLeaf _ h₁ d (fun dv => toFun dv b) rfl, ← nsum_eq_distLeaf _ h₂ d (fun dv => toFun dv b) rfl,
+      nsum_mergeNested (toFun_dictAdditive b), nsum_append]
+  rw [(subsetted_sum sub).congr hfun, (subsetted_sum sub).additive]
+
+/-! ## SubsettedVotes at any depth (the recursion of `_convert`) -/
+
+/-- **image**: on a dictionary nested `n` deep the converter keeps the nesting and its keys, and along every
+    path of nesting keys the result holds the subsetted votes of what the input held there -/
+theorem subsettedDeep_image {κ : Type} [DecidableEq κ] (sub : κ → Option κ) (n : Nat) (t : NDict κ) (h : Shaped n t) :
+    ∃ r, subsettedDeep sub n t = .ok r ∧ Shaped n r ∧ ∀ π, leafAt n r π = subsetted sub (leafAt n t π) :=
+  ⟨_, subsettedDeep_eq sub n t h, shaped_mapLeaves _ n t h, fun π => leafAt_mapLeaves _ rfl n t π⟩
+
+/-- … hence, path by path, the sum of the ballot images -/
+theorem subsettedDeep_sum {κ : Type} [DecidableEq κ] (sub : κ → Option κ) (n : Nat) (t : NDict κ) (h : Shaped n t) :
+    ∃ r, subsettedDeep sub n t = .ok r ∧
+      ∀ π k, valAt n r π k = wsum (leafAt n t π) (fun b => if sub b = some k then 1 else 0) := by
+  obtain ⟨r, hr, _, hl⟩ := subsettedDeep_image sub n t h
+  exact ⟨r, hr, fun π k => by unfold valAt; rw [hl, subsetted_sum]⟩
+
+/-- the nested dict `A + B` (key-wise recursive sum, what the harness builds) adds path by path -/
+theorem mergeN_is_sum {κ : Type} [DecidableEq κ] (n : Nat) (a b : NDict κ) (ha : Shaped n a) (hb : Shaped n b) :
+    Shaped n (mergeN n a b) ∧ ∀ π k, valAt n (mergeN n a b) π k = valAt n a π k + valAt n b π k :=
+  mergeN_spec n a b ha hb
+
+/-- **additivity at any depth**, for ANY nested dictionary that is the path-wise sum of two others -/
+theorem subsettedDeep_additive {κ : Type} [DecidableEq κ] (sub : κ → Option κ) (n : Nat) (t a b : NDict κ)
+    (ht : Shaped n t) (ha : Shaped n a) (hb : Shaped n b)
+    (hsum : ∀ π k, valAt n t π k = valAt n a π k + valAt n b π k) :
+    ∃ r ra rb, subsettedDeep sub n t = .ok r ∧ subsettedDeep sub n a = .ok ra ∧ subsettedDeep sub n b = .ok rb ∧
+      ∀ π k, valAt n r π k = valAt n ra π k + valAt n rb π k := by
+  obtain ⟨r, hr, _, hl⟩ := subsettedDeep_image sub n t ht
+  obtain ⟨ra, hra, _, hla⟩ := subsettedDeep_image sub n a ha
+  obtain ⟨rb, hrb, _, hlb⟩ := subsettedDeep_image sub n b hb
+  refine ⟨r, ra, rb, hr, hra, hrb, fun π k => ?_⟩
+  unfold valAt
+  rw [hl, hla, hlb]
+  have hfun : ∀ x, toFun (leafAt n t π) x = toFun (leafAt n a π ++ leafAt n b π) x := by
+    intro x; rw [toFun_append]; exact hsum π x
+  rw [(subsetted_sum sub).congr hfun, (subsetted_sum sub).additive]
+
+/-- … in particular for the nested dict `A + B` -/
+theorem subsettedDeep_additive_merged {κ : Type} [DecidableEq κ] (sub : κ → Option κ) (n : Nat) (a b : NDict κ)
+    (ha : Shaped n a) (hb : Shaped n b) :
+    ∃ r ra rb, subsettedDeep sub n (mergeN n a b) = .ok r ∧ subsettedDeep sub n a = .ok ra ∧
+      subsettedDeep sub n b = .ok rb ∧ ∀ π k, valAt n r π k = valAt n ra π k + valAt n rb π k :=
+  subsettedDeep_additive sub n _ a b (mergeN_is_sum n a b ha hb).1 ha hb (mergeN_is_sum n a b ha hb).2
+
+example : Shaped 2 (.node [(0, .node [(0, .leaf [((0 : Cand), (2 : Rat)), (1, 1)]), (1, .leaf [(2, 1 / 2)])]),
+    (1, .node [])] : NDict Cand) := by
+  refine ⟨by decide, ?_⟩
+  intro kc hkc
+  simp only [List.mem_cons, List.not_mem_nil, or_false] at hkc
+  rcases hkc with rfl | rfl
+  · refine ⟨by decide, ?_⟩
+    intro kc hkc
+    simp only [List.mem_cons, List.not_mem_nil, or_false] at hkc
+    rcases hkc with rfl | rfl <;> trivial
+  · exact ⟨by decide, by intro kc h; simp at h⟩
 
 /-! ## InvertedApprovalVotes as called: the universe is the set of approved candidates -/
 
